@@ -15,7 +15,7 @@ pub enum TriviaSet {
     WithFormFeed,
 }
 
-pub const COMMENT_BODIES: &[&str] = &["", " c", " (a . b) \"x", "; λ 中", " #| x |#", " ) ] '", "\t;;", "\0", " a\0b (c", " \x0C x", " \x7f\x1b", " \u{feff}\u{2028}x", " \\", " #;"];
+pub const COMMENT_BODIES: &[&str] = &["", " c", " (a . b) \"x", "; λ 中", " #| x |#", " ) ] '", "\t;;", " a\rb (c \"", "\r", "\0", " a\0b (c", " \x0C x", " \x7f\x1b", " \u{feff}\u{2028}x", " \\", " #;"];
 
 pub fn trivia_piece(rng: &mut Rng, set: TriviaSet, out: &mut String) {
     let k = if set == TriviaSet::WithFormFeed { 6 } else { 5 };
@@ -454,6 +454,10 @@ fn sep_required(a: &Tok, b: &Tok) -> bool {
             // ...except after a character literal or '#' forms where R7RS wants a delimiter: both are delimiters
             false
         }
+        // a string literal is self-delimiting on both sides: `"` ends every other
+        // atom, and anything may follow the closing quote
+        (Atom, Atom) if b.text.starts_with('"') => false,
+        (Atom, _) if a.text.len() >= 2 && a.text.starts_with('"') && a.text.ends_with('"') => false,
         (Atom, HashOpen) | (Atom, Atom) | (Atom, Prefix) | (Atom, Dot) => true,
     }
 }
